@@ -123,10 +123,10 @@ Proof.
 Qed.
 
 Lemma step_thread_lst var st t st' : v_recover_own var = true -> v_save_rehome var = true -> v_add_locked var = true ->
-  v_retry_recheck var = true ->
+  v_retry_recheck var = true -> v_save_deleted_only var = true ->
   step_thread var st t = Some st' -> inv_managed st -> inv_coh st -> inv_acc st -> inv_lst st -> inv_lst st'.
 Proof.
-  unfold step_thread. intros Vown Vre Vadd Vrt H M IC IA L. rewrite Vown, Vre, Vadd in H.
+  unfold step_thread. intros Vown Vre Vadd Vrt Vdel H M IC IA L. rewrite Vown, Vre, Vadd in H.
   destruct (nth_error (threads st) t) as [th|] eqn:Hth; [|discriminate].
   pose proof (ic_thr st IC t th Hth) as Tc. unfold thread_ok in Tc.
   pose proof (il_thr st L t th Hth) as [Tout Tp].
@@ -176,6 +176,7 @@ Proof.
     destruct Tw as (en0 & Hen0 & Hst & _). rewrite Hen in Hen0. inversion Hen0; subst en0.
     destruct (tout th) as [v s| |] eqn:Hout.
     + destruct (nth_error (caches st) (tcache th)) as [ca|] eqn:Hca; [|discriminate].
+      rewrite (stale_zero_off var _ Vdel), orb_false_r in H.
       inversion H; subst st'; clear H.
       set (size := (if edeleted en then 0 else esz st + s)%Z) in *.
       assert (Hsz : (0 <= size)%Z).
